@@ -341,7 +341,7 @@ MANIFEST_TEXT = {
     "C15": {
         "text": "Seeded exploration of the real seq_join / try_join / parallel_join with gate futures released by an environment task in seeded orders, pending sources, error plans and forward dependencies inside the window. Oracle: exactly-once in input order; at every poll of a joined task the number of started-unfinished tasks is >= min(window, inputs available); every dependency pattern of distance < window terminates (deadlock/step-cap = violation); the fallible variants return the first error in input order; parallel_join returns all-in-order or one of the planned errors. Sampling, not proof.",
         "design_ref": "DESIGN.md section 4, C15",
-        "note": "quick tier runs the default (single-threaded) implementation; the multi-threaded implementation is built and run in the thorough tier (flavour mt) with a window slack of one (a yielded slot is refilled on the next poll)",
+        "note": "quick tier runs the default (single-threaded) implementation; the multi-threaded (spawning) implementation is built and run in the thorough tier (flavour mt); its window lower bound is judged when the join returns Pending (it fills its window across several scheduling steps), and the cancellation-marker panic of tasks still in flight after a planned error is a shuttle artefact (tokio confines a task's panic to the task) that is counted, not judged",
         "technique": "deterministic simulation: seeded schedule + release-order search over the real join combinators, history oracle",
     },
     "C16": {
